@@ -351,7 +351,7 @@ def near_integer_small_counts(ctx, rng, n):
         k = rng.randint(2, 9)
         w, rate = rng.choice(((0.01, 100), (0.02, 100), (0.05, 100), (0.1, 10), (0.001, 1000), (0.001, 8000), (0.0005, 8000), (0.002, 1000)))
         # short windows: an absolute slack on the DURATION (instead of on the number of windows) is many times 1e-9 windows there
-        d = rng.choice((1.2e-8, 2e-8, 5e-8)) if w < 0.005 else 2e-8
+        d = rng.choice((1.2e-8, 2e-8, 5e-8, 2e-9, 4e-9)) if w < 0.005 else rng.choice((2e-8, 2e-9, 3e-9, 6e-9))
         which = rng.choice(("max_below", "min_above", "sil_below"))
         if which == "max_below":
             min_dur, max_dur, max_silence = w, (k - d) * w, 0          # k-1 windows allowed
@@ -420,6 +420,16 @@ def run_shard(ctx):
                         accept_case(ctx, min_dur, max_dur, max_silence, w, rate)
             if ctx.out_of_time():
                 return
+    # (a') quotients of 1e9 .. 1e12 windows whose fractional part is far from 0 (a tolerance that scales with the quotient is wrong there)
+    if ctx.shard == 3:
+        for w, rate in ((1e-5, 100000), (0.001, 1000), (0.01, 100)):
+            for big in (10 ** 9, 10 ** 12):
+                for frac in (0.9995, 0.5, 0.0005):
+                    ctx.count("huge_quotient_accept_cases")
+                    accept_case(ctx, (big + frac) * w, (big + frac) * w, 0, w, rate)          # ceil > floor: reject
+                    accept_case(ctx, w, (big + 1 + frac) * w, (big + frac) * w, w, rate)      # floor(sil) = big < floor(max) = big + 1: accept
+                    accept_case(ctx, w, (big + frac) * w, (big + frac) * w, w, rate)          # floor(sil) == floor(max): reject
+                    accept_case(ctx, (big - 1 + frac) * w, (big + frac) * w, 0, w, rate)      # ceil(min) == floor(max) = big: accept
     # (b) bursts
     rng = ctx.rng("bursts")
     # the float-artefact tuples named in the property always run (in shard 0..)
@@ -473,7 +483,7 @@ def inconclusive(merged, tier):
     c = merged["counters"]
     return [f"monitor never observed {k}" for k in
             ("accept_grid_accepted", "accept_grid_ValueError", "burst_cases", "burst_regions_observed",
-             "burst_style_bytes", "burst_style_reader", "burst_style_region", "bursts_with_a_shorter_final_window", "overlap_reader_regions", "validator_fault_cases", "calls_relying_on_the_default_analysis_window", "large_quotient_cases", "near_integer_small_count_cases", "reader_with_conflicting_window_keyword", "accept_grid_spelling_bytes-aw", "crisp_burst_of_exactly_ceil(min_dur/w)",
+             "burst_style_bytes", "burst_style_reader", "burst_style_region", "bursts_with_a_shorter_final_window", "overlap_reader_regions", "validator_fault_cases", "calls_relying_on_the_default_analysis_window", "huge_quotient_accept_cases", "large_quotient_cases", "near_integer_small_count_cases", "reader_with_conflicting_window_keyword", "accept_grid_spelling_bytes-aw", "crisp_burst_of_exactly_ceil(min_dur/w)",
              "crisp_burst_of_ceil(min_dur/w)-1", "reject_clause:window shorter than one sample",
              "reject_clause:min_dur needs more windows than max_dur allows",
              "reject_clause:max_silence not below max_dur in windows") if c.get(k, 0) == 0]
